@@ -522,7 +522,27 @@ def bool_locals_of(body):
 _TRY_BRANCH = "core::ops::try_trait::Try::branch"
 
 
-def bool_transfer(body, bb, known):
+_CMP = {"Eq": lambda a, b: a == b, "Ne": lambda a, b: a != b, "Lt": lambda a, b: a < b, "Le": lambda a, b: a <= b,
+        "Gt": lambda a, b: a > b, "Ge": lambda a, b: a >= b}
+_ARITH = {"BitAnd": lambda a, b: a & b, "BitOr": lambda a, b: a | b, "BitXor": lambda a, b: a ^ b,
+          "Shr": lambda a, b: a >> b, "Shl": lambda a, b: a << b, "Add": lambda a, b: a + b, "Sub": lambda a, b: a - b,
+          "Mul": lambda a, b: a * b}
+_WIDTH = {"u8": 8, "u16": 16, "u32": 32, "u64": 64, "usize": 64, "u128": 128}
+
+
+def _known_operand(o, known):
+    """("i", n) / ("b", x) value of an operand if it is a constant or a local with known value."""
+    k = o.get("k") if isinstance(o, dict) else None
+    if k is not None and isinstance(k.get("v"), int):
+        tn = (k.get("ty") or {}).get("n")
+        return ("b", bool(k["v"])) if tn == "bool" else ("i", k["v"])
+    l = op_local(o)
+    if l is not None:
+        return known.get(l)
+    return None
+
+
+def bool_transfer(body, bb, known, pins=None):
     """Path-sensitive knowledge about *small constants* after the statements and the call of block bb.
     known: local -> ("b", bool) | ("i", int) | ("v", variant index).  Tracked:
       x = const bool/int, x = copy/move y, x = !y, x = Variant(..) (aggregate), x = discriminant(y),
@@ -565,6 +585,27 @@ def bool_transfer(body, bb, known):
             p = rv["p"]
             if not [e for e in p["p"] if e != "deref"] and known.get(p["l"], ("?",))[0] == "v":
                 val = ("i", known[p["l"]][1])
+        elif r == "bin":
+            a, b_ = _known_operand(rv["a"], known), _known_operand(rv["b"], known)
+            op = rv["op"]
+            if a is not None and b_ is not None and a[0] in ("i", "b") and b_[0] in ("i", "b"):
+                x, y = int(a[1]), int(b_[1])
+                if op in _CMP:
+                    val = ("b", _CMP[op](x, y))
+                elif op in _ARITH and not (op in ("Shr", "Shl") and y > 127):
+                    res = _ARITH[op](x, y)
+                    w = _WIDTH.get(ty_str(rv.get("ty")))
+                    if a[0] == "b" and b_[0] == "b" and op in ("BitAnd", "BitOr", "BitXor"):
+                        val = ("b", bool(res))
+                    elif w is not None and 0 <= res < (1 << w):
+                        val = ("i", res)
+        elif r == "cast" and rv.get("kind") == "IntToInt":
+            a = _known_operand(rv["o"], known)
+            w = _WIDTH.get(ty_str(rv.get("ty")))
+            if a is not None and a[0] in ("i", "b") and w is not None and int(a[1]) >= 0:
+                val = ("i", int(a[1]) & ((1 << w) - 1))
+        if pins and dl in pins:
+            val = pins[dl]
         if val is None:
             known.pop(dl, None)
         else:
@@ -591,6 +632,8 @@ def bool_transfer(body, bb, known):
                 val = ("v", 1)
             elif tn == "core::option::Option":
                 val = ("v", 0)
+        if pins and dl in pins:
+            val = pins[dl]
         if val is None:
             known.pop(dl, None)
         else:
@@ -619,9 +662,11 @@ def bool_switch_target(body, bb, known):
     return t["else"]
 
 
-def feasible_reach(body, start=0, cut_edges=(), cut_blocks=(), init=None):
+def feasible_reach(body, start=0, cut_edges=(), cut_blocks=(), init=None, pins=None):
     """Blocks reachable from `start` when edges in cut_edges / blocks in cut_blocks are removed, following a
-    switch on a bool local only along the edge its (path-sensitively tracked) constant value allows.
+    switch on a local only along the edge its (path-sensitively tracked) constant value allows.
+    `pins` = {local: ("i", n)}: assume these locals hold the given value whenever they are assigned - the
+    analysis "for the key byte = n" (a finite case split over a scalar that is only compared with constants).
     This makes `matches!(v, A | B)` / `let flag = ..; if flag` equivalent to branching on the original test."""
     cut_edges = set(cut_edges)
     cut_blocks = set(cut_blocks)
@@ -634,7 +679,7 @@ def feasible_reach(body, start=0, cut_edges=(), cut_blocks=(), init=None):
         if bb in cut_blocks:
             continue
         blocks.add(bb)
-        known = bool_transfer(body, bb, kn)
+        known = bool_transfer(body, bb, kn, pins)
         only = bool_switch_target(body, bb, known)
         succs = [only] if only is not None else list(body.succ[bb])
         k2 = frozenset(known.items())
